@@ -56,8 +56,9 @@ const (
 var (
 	auHosts  = []string{"h1", "h2"}
 	auRealms = []string{"ra", "rb"}
-	auRS     = []string{"repository:a:pull", "repository:a:push", "repository:b:pull", "registry:catalog:*"}
-	auKinds  = []string{"none", "basic", "refresh", "both", "static", "cfgerr"}
+	// (the last one is an opaque scope whose text needs quoted-pair escapes inside a challenge)
+	auRS    = []string{"repository:a:pull", "repository:a:push", "repository:b:pull", "registry:catalog:*", `odd"sc\ope`}
+	auKinds = []string{"none", "basic", "refresh", "both", "static", "cfgerr"}
 )
 
 type auEv = map[string]any
@@ -75,6 +76,8 @@ type auRegAns struct {
 	Offers []auOffer `json:"offers"`
 	Hdrs   []string  `json:"hdrs"` // the concrete Www-Authenticate lines, aligned with Offers
 	Texts  []string  `json:"texts"`
+	Realms []string  `json:"realms"` // the realm URL each Bearer offer MEANS (unescaped; "" when none / unusable)
+	Svcs   []string  `json:"svcs"`   // the service value each Bearer offer means
 }
 
 type auTokAns struct {
@@ -240,37 +243,41 @@ func auSpell(name string, style int) string {
 	return name
 }
 
-// auHeaderFor renders one offer as a Www-Authenticate line; -> line, scope text used
-func auHeaderFor(o auOffer, rnd *rand.Rand) (string, string) {
+// auHeaderFor renders one offer as a Www-Authenticate line; -> line, and the values it MEANS: scope text,
+// realm URL ("" when there is none or it is unusable), service.  Quoted values are written with quoted-pair
+// escapes: a literal quote or backslash in the value must be escaped, any other character may be.
+func auHeaderFor(o auOffer, rnd *rand.Rand) (string, string, string, string) {
 	switch o.Scheme {
 	case "basic":
 		switch rnd.Intn(7) {
 		case 5:
-			return `Basic Realm="registry"`, ""
+			return `Basic Realm="registry"`, "", "", ""
 		case 6:
-			return `BASIC REALM="Registry", Charset="UTF-8"`, ""
+			return `BASIC REALM="Registry", Charset="UTF-8"`, "", "", ""
 		case 0:
-			return `Basic realm="registry"`, ""
+			return `Basic realm="registry"`, "", "", ""
 		case 1:
-			return `BASIC realm="Registry Realm", charset="UTF-8"`, ""
+			return `BASIC realm="Registry Realm", charset="UTF-8"`, "", "", ""
 		case 2:
-			return `basic realm=registry`, ""
+			return `basic realm=registry`, "", "", ""
 		case 3:
-			return `Basic`, ""
+			return `Basic`, "", "", ""
 		default:
-			return `Basic   realm="a \"quoted\" realm"`, ""
+			return `Basic   realm="a \"quoted\" realm"`, "", "", ""
 		}
 	case "other":
-		return auOtherHdrs[rnd.Intn(len(auOtherHdrs))], ""
+		return auOtherHdrs[rnd.Intn(len(auOtherHdrs))], "", "", ""
 	case "bad":
-		return auBadHdrs[rnd.Intn(len(auBadHdrs))], ""
+		return auBadHdrs[rnd.Intn(len(auBadHdrs))], "", "", ""
 	}
 	esc := rnd.Intn(4) == 0
 	text := auScopeText(o.Scope, rnd.Intn(5))
 	var params []string
 	realmURL := ""
 	if o.Realm == "-" {
-		switch rnd.Intn(4) {
+		switch rnd.Intn(5) {
+		case 4: // a backslash in the authority: not a URL (net/url: invalid userinfo); nothing may be sent anywhere
+			params = append(params, "realm="+auQuote(`http://ra\@evil.example/token`, esc, rnd))
 		case 0: // no realm at all
 		case 1: // a relative reference: nothing a transport could send to
 			params = append(params, `realm=token`)
@@ -280,17 +287,19 @@ func auHeaderFor(o auOffer, rnd *rand.Rand) (string, string) {
 			params = append(params, `realm="/just/a/path"`)
 		}
 	} else {
-		realmURL = "http://" + o.Realm + "/token"
+		realmURL = "http://" + o.Realm + []string{"/token", "/token", "/token", `/token\2`, `/token/q"uote`, `/token\\x/y`}[rnd.Intn(6)]
 		if rnd.Intn(4) == 0 {
 			realmURL += "?account=x"
 		}
 		params = append(params, "realm="+auQuote(realmURL, esc, rnd))
 	}
+	service := ""
 	if rnd.Intn(3) != 0 {
-		if rnd.Intn(2) == 0 {
-			params = append(params, `service="svc.example"`)
-		} else {
+		service = []string{"svc.example", "svc", `my "quoted" svc`, `back\slash`, `a\\b "c"`, "svc.example"}[rnd.Intn(6)]
+		if service == "svc" {
 			params = append(params, `service=svc`)
+		} else {
+			params = append(params, "service="+auQuote(service, esc, rnd))
 		}
 	}
 	if text != "" || false {
@@ -310,9 +319,9 @@ func auHeaderFor(o auOffer, rnd *rand.Rand) (string, string) {
 	sep := []string{",", ", ", " , ", ",\t"}[rnd.Intn(4)]
 	scheme := []string{"Bearer", "Bearer", "bearer", "BEARER"}[rnd.Intn(4)]
 	if len(params) == 0 {
-		return scheme, text
+		return scheme, text, realmURL, service
 	}
-	return scheme + " " + strings.Join(params, sep), text
+	return scheme + " " + strings.Join(params, sep), text, realmURL, service
 }
 
 // auConcretise fills in the concrete header lines of every scripted registry answer.
@@ -347,12 +356,16 @@ func auConcretise(sc *auScen, rnd *rand.Rand) {
 				rnd.Shuffle(len(a.Offers), func(i, j int) { a.Offers[i], a.Offers[j] = a.Offers[j], a.Offers[i] })
 				a.Hdrs = []string{}
 				a.Texts = []string{}
+				a.Realms = []string{}
+				a.Svcs = []string{}
 				for oi := range a.Offers {
 					if a.Offers[oi].Scope == nil {
 						a.Offers[oi].Scope = []string{}
 					}
 					sort.Strings(a.Offers[oi].Scope)
-					h, t := auHeaderFor(a.Offers[oi], rnd)
+					h, t, ru, sv := auHeaderFor(a.Offers[oi], rnd)
+					a.Realms = append(a.Realms, ru)
+					a.Svcs = append(a.Svcs, sv)
 					a.Hdrs = append(a.Hdrs, h)
 					a.Texts = append(a.Texts, t)
 				}
@@ -698,7 +711,8 @@ type auCallState struct {
 }
 
 type auRun struct {
-	rev       map[string]string // URL host -> abstract id
+	realms    map[string][]string // realm key (host|path|account) of every realm the scenario's challenges mean -> services
+	rev       map[string]string   // URL host -> abstract id
 	sc        *auScen
 	mu        sync.Mutex
 	events    []auEv
@@ -891,7 +905,24 @@ func (t auTransport) RoundTrip(req *http.Request) (*http.Response, error) {
 				}
 			}
 		}
-		r.log(auEv{"op": "tokreq", "c": slot, "to": host, "method": req.Method, "cred": auCred(req, form), "scope": auTokenise(raw), "kept": kept, "text": raw}, true)
+		// where the request really goes: the realm host if host, path and account are exactly those of a realm
+		// some challenge of the scenario meant; otherwise the URL as it is.  svcok: the service value asked
+		// with is the one that challenge meant.
+		service := req.URL.Query().Get("service")
+		if form != nil {
+			service = form.Get("service")
+		}
+		svcs, known := r.realms[req.URL.Host+"|"+req.URL.Path+"|"+req.URL.Query().Get("account")]
+		svcok := false
+		for _, sv := range svcs {
+			if sv == service {
+				svcok = true
+			}
+		}
+		if !known {
+			host = req.URL.String()
+		}
+		r.log(auEv{"op": "tokreq", "c": slot, "to": host, "svcok": svcok, "service": service, "path": req.URL.Path, "method": req.Method, "cred": auCred(req, form), "scope": auTokenise(raw), "kept": kept, "text": raw}, true)
 		ans := auTokAns{Kind: "other", Var: 0}
 		if cs != nil && cs.tokN < len(cs.call.Tok) {
 			ans = cs.call.Tok[cs.tokN]
@@ -1147,7 +1178,19 @@ func (r *auRun) doCall(tr http.RoundTripper, slot int, call *auCall, at int, beg
 
 // runScen executes a scenario once; ok=false: timing was outside the safe zone (timed scenarios only).
 func auRunScen(sc *auScen) (events []auEv, ok bool) {
-	r := &auRun{sc: sc, rev: map[string]string{}}
+	r := &auRun{sc: sc, rev: map[string]string{}, realms: map[string][]string{}}
+	for _, st := range sc.Steps {
+		for _, c := range st.Calls {
+			for _, a := range c.Reg {
+				for i, ru := range a.Realms {
+					if u, err := url.Parse(ru); ru != "" && err == nil {
+						k := u.Host + "|" + u.Path + "|" + u.Query().Get("account")
+						r.realms[k] = append(r.realms[k], a.Svcs[i])
+					}
+				}
+			}
+		}
+	}
 	for id, h := range sc.Names {
 		r.rev[h] = id
 	}
